@@ -5,3 +5,6 @@ import RV.Proofs.GenShape
 import RV.Proofs.GenImports
 import RV.Proofs.GenUnique
 import RV.Proofs.GenPerm
+import RV.Proofs.GenAudit
+import RV.Proofs.GenAudit2
+import RV.Proofs.GenAudit3
